@@ -81,6 +81,21 @@ def run_cell(cell, seed):
         inv2 = pw.DWTInverse(wave=arrs(wc, True), mode=mode)
     rnd = core.rng_for(seed, PROP, 'k', str(cell))
     may_raise = in_short_reflect(cell)
+    # the caller's filter arrays stay the caller's: editing them after construction must not reach the module
+    for direction, ctor, synth in (('forward', lambda a: pw.DWTForward(J=J, wave=a, mode=mode), False),
+                                   ('inverse', lambda a: pw.DWTInverse(wave=a, mode=mode), True)):
+        case = {'cell': cell, 'dir': direction, 'form': '4-tuple', 'input': 'caller arrays edited after construction'}
+        taps = tuple(np.array(a, dtype=np.float64) for a in (arrs(wc, synth) + arrs(wr, synth)))
+        with util.default_dtype(torch.float64):
+            okm, m_ = util.call_lib(ctor, taps)
+        if not okm:
+            continue
+        before = {k: v.detach().clone() for k, v in m_.state_dict().items()}
+        for a in taps:
+            a *= -3.0
+        changed = [k for k, v in m_.state_dict().items() if not torch.equal(v, before[k])]
+        out.append(res(HELD, case, 'M-ALIAS', ratio=0.0) if not changed else
+                   res(VIOLATED, case, 'M-ALIAS', 'module buffers %s changed when the caller edited its own filter arrays' % changed))
     pyr = None
     for kind in ['impulse', 'randn', rnd.choice(['dynrange', 'alt', 'outlier', 'ramp'])]:
         x = util.impulses(sp) if kind == 'impulse' else util.make_input(kind, [cell['N'], cell['C']] + sp, seed)
